@@ -53,6 +53,26 @@ func containsAndOr(sql string) bool {
 	return strings.Contains(sql, AndWithSpace) || strings.Contains(sql, OrWithSpace)
 }
 
+// rawNeedsParentheses reports whether expr renders as a bare raw SQL condition containing AND / OR,
+// also when that condition is the only member of an AND / OR group (which adds no parentheses itself).
+func rawNeedsParentheses(expr Expression) bool {
+	switch v := expr.(type) {
+	case Expr:
+		return containsAndOr(strings.ToUpper(v.SQL))
+	case NamedExpr:
+		return containsAndOr(strings.ToUpper(v.SQL))
+	case OrConditions:
+		if len(v.Exprs) == 1 {
+			return rawNeedsParentheses(v.Exprs[0])
+		}
+	case AndConditions:
+		if len(v.Exprs) == 1 {
+			return rawNeedsParentheses(v.Exprs[0])
+		}
+	}
+	return false
+}
+
 func buildExprs(exprs []Expression, builder Builder, joinCond string) {
 	wrapInParentheses := false
 
@@ -201,12 +221,9 @@ func (not NotConditions) Build(builder Builder) {
 				negationBuilder.NegationBuild(builder)
 			} else {
 				builder.WriteString("NOT ")
-				e, wrapInParentheses := c.(Expr)
+				wrapInParentheses := rawNeedsParentheses(c)
 				if wrapInParentheses {
-					sql := strings.ToUpper(e.SQL)
-					if wrapInParentheses = containsAndOr(sql); wrapInParentheses {
-						builder.WriteByte('(')
-					}
+					builder.WriteByte('(')
 				}
 
 				c.Build(builder)
@@ -236,12 +253,9 @@ func (not NotConditions) Build(builder Builder) {
 				}
 			}
 
-			e, wrapInParentheses := c.(Expr)
+			wrapInParentheses := rawNeedsParentheses(c)
 			if wrapInParentheses {
-				sql := strings.ToUpper(e.SQL)
-				if wrapInParentheses = containsAndOr(sql); wrapInParentheses {
-					builder.WriteByte('(')
-				}
+				builder.WriteByte('(')
 			}
 
 			c.Build(builder)
